@@ -20,6 +20,7 @@ RULE = ("ids: positions uniform, at both poles, on octant boundaries (ra multipl
 TRUSTED = ["numpy long-double trigonometry and log10", "the monitored lookup_id as the meaning of 'the triangle of a position' in the coverage oracle"]
 ASSUMPTIONS = ["positions within 1e-9 deg of the circle and pairs within 1e-9 (relative) of a bin edge are not constrained (statement)",
                "(radius, depth) combinations are bounded by 2e4 triangles per circle"]
+THOROUGH_ROUNDS = 2      # the thorough tier runs the generator over this many derived seeds
 REQUIRED = {"quick": {"C13.ids": 30000, "C13.cover": 20000, "C13.bincount": 1200}, "thorough": {"C13.ids": 400000, "C13.cover": 300000, "C13.bincount": 18000}}
 WATCHDOG = {"quick": 1200, "thorough": 7200}
 CASE_TIMEOUT = 600
